@@ -1,6 +1,7 @@
 """C14 - tetrahedron weights equal the exact linear-tetrahedron volume fractions."""
 import itertools
 import math
+import os
 import numpy as np
 from fractions import Fraction as Fr
 
@@ -568,7 +569,8 @@ def system_oracle(ctx, scale):
                 res = wb.run(s, grid, calculators={
                     "cum": wb.calculators.static.CumDOS(Efermi=Ef, tetra=True, degen_thresh=th),
                     "dos": wb.calculators.static.DOS(Efermi=Ef, tetra=True, degen_thresh=th)},
-                    parallel=False, use_irred_kpt=False, symmetrize=False, print_Kpoints=False, adpt_num_iter=0)
+                    parallel=False, use_irred_kpt=False, symmetrize=False, print_Kpoints=False, adpt_num_iter=0,
+                    fout_name=os.path.join(ctx.work, "result"))
             cum = res.results["cum"].data
             dos = res.results["dos"].data
             ref0 = np.zeros(nef)
@@ -619,7 +621,8 @@ def system_oracle(ctx, scale):
                 with quiet():
                     g2 = GridTetra(s, length=rng.choice([3.0, 5.0]), NKFFT=NKFFT)
                     r2 = wb.run(s, g2, calculators={"cum": wb.calculators.static.CumDOS(Efermi=Ef, tetra=True, degen_thresh=th)},
-                                parallel=False, use_irred_kpt=False, symmetrize=False, print_Kpoints=False, adpt_num_iter=0)
+                                parallel=False, use_irred_kpt=False, symmetrize=False, print_Kpoints=False, adpt_num_iter=0,
+                    fout_name=os.path.join(ctx.work, "result"))
                 c2 = r2.results["cum"].data
                 ref = np.zeros(nef)
                 wsum = 0.0
